@@ -63,6 +63,15 @@ Lemma parse_log_kw : forall k isf0 isf b n t n1 r, t = LAnd \/ t = LOr ->
   = let (c', r') := scan r in log_loop k false isf0 t [] (b ++ kw_text t) c' r'.
 Proof. intros k isf0 [|] b n t n1 r [->| ->]; reflexivity. Qed.
 
+Lemma parse_log_nokw : forall k isf0 isf b n toks,
+  match toks with t1 :: _ => is_ident_tok t1 = false | [] => True end ->
+  parse_log (S k) isf0 (CTok (mkTok (TCh (open_c isf)) b n)) toks
+  = let (c, r) := scan toks in log_loop k false isf0 LAnd [] b c r.
+Proof.
+  intros k isf0 [|] b n [|[kd tx nx] toks] H; try reflexivity;
+    destruct kd; try discriminate H; reflexivity.
+Qed.
+
 Lemma log_loop_comma : forall k inv isf ty xs us b n rest,
   log_loop (S k) inv isf ty xs us (CTok (mkTok (TCh 44) b n)) rest
   = let (c, r) := scan rest in log_loop k inv isf ty xs (us ++ ch_str 44) c r.
@@ -127,10 +136,10 @@ Definition DF (uni : uclass) (f : func) : Prop :=
 Definition DL (uni : uclass) (l : logop) : Prop :=
   canon_logop uni l ->
   forall ws d R T fuel nx,
-    (2 * length (items_toks (its_lbody ws d (logop_isf l) (logop_ty l) (logop_xs l)) R) + 2 <= fuel)%nat ->
+    (2 * length (items_toks (its_lbody ws d (logop_isf l) (logop_ty l) (logop_om l) (logop_xs l)) R) + 2 <= fuel)%nat ->
     parse_log fuel (logop_isf l)
       (CTok (mkTok (TCh (open_c (logop_isf l))) (ch_str (open_c (logop_isf l))) nx))
-      (items_toks (its_lbody ws d (logop_isf l) (logop_ty l) (logop_xs l)) R ++ T)
+      (items_toks (its_lbody ws d (logop_isf l) (logop_ty l) (logop_om l) (logop_xs l)) R ++ T)
     = (let (c, r) := scan T in Ok (c, r, l)).
 
 (* ------------------------------------------------------------------ *)
@@ -182,7 +191,7 @@ Proof.
       rewrite (@bind_scan logop path). cbn [logop_us].
       pose proof (canon_logop_us uni _ Hcl) as Hus. cbn [logop_us] in Hus.
       rewrite IH by (assumption || lia).
-      cbn [map concat render_pathop]. rewrite Hus, <- !app_assoc. reflexivity.
+      cbn [map concat render_pathop]. rewrite <- Hus, <- !app_assoc. reflexivity.
     + (* a call *)
       destruct f as [inv ft ps usf].
       cbn [its_pathop] in Hf |- *. rewrite its_func_eq in Hf |- *.
@@ -249,9 +258,9 @@ Proof.
     cbn [its_param] in Hf |- *. rewrite its_logop_eq in Hf |- *.
     cbn [W app items_toks item_toks length open_c] in Hf |- *.
     cbn [scan]. rewrite func_loop_group.
-    pose proof (Ha Hcl false O R1 (t :: T1) k (peek (items_cs (its_lbody false 0 false ty xs) ++ R1))) as HD.
+    pose proof (fun nx => Ha Hcl false O R1 (t :: T1) k nx) as HD.
     cbn [logop_isf logop_ty logop_xs open_c] in HD.
-    rewrite HD by lia. rewrite (@bind_scan logop func). cbn [scan logop_us render_param]. rewrite Hus. reflexivity.
+    rewrite HD by lia. rewrite (@bind_scan logop func). cbn [scan logop_us render_param]. rewrite <- Hus. reflexivity.
 Qed.
 
 Lemma args_tail_loop : forall uni ps,
@@ -302,6 +311,15 @@ Proof.
   - split; [eexists; eexists; split; reflexivity|apply pfollow_44].
 Qed.
 
+Lemma operand_first : forall uni isf x, canon_operand uni isf x ->
+  forall ws d R, exists t1 T1, items_toks (its_operand ws d x) R = t1 :: T1 /\ is_ident_tok t1 = false.
+Proof.
+  intros uni isf [[inv root isf1 me ops us]|[inv isf1 t xs us]] Hc ws d R; cbn [its_operand].
+  - rewrite its_path_eq, items_toks_W. cbn [items_toks item_toks app]. eexists. eexists. split; reflexivity.
+  - rewrite its_logop_eq. destruct isf1; rewrite ?items_toks_W; cbn [items_toks item_toks app];
+      eexists; eexists; split; reflexivity.
+Qed.
+
 Lemma one_operand : forall uni isf x, Px_of (DP uni) (DL uni) x -> canon_operand uni isf x ->
   forall ws d R1 t T1 k inv ty xs0 us0,
     pfollow uni (peek R1) -> is_term t = true ->
@@ -329,9 +347,9 @@ Proof.
     rewrite items_toks_W in Hf |- *.
     cbn [items_toks item_toks app length open_c] in Hf |- *.
     cbn [scan]. rewrite log_loop_group.
-    pose proof (Hx Hcl ws d R1 (t :: T1) k (peek (items_cs (its_lbody ws d false ty1 xs) ++ R1))) as HD.
+    pose proof (fun nx => Hx Hcl ws d R1 (t :: T1) k nx) as HD.
     cbn [logop_isf logop_ty logop_xs open_c] in HD.
-    rewrite HD by lia. rewrite (@bind_scan logop logop). cbn [scan logop_us render_operand]. rewrite Hus. reflexivity.
+    rewrite HD by lia. rewrite (@bind_scan logop logop). cbn [scan logop_us render_operand]. rewrite <- Hus. reflexivity.
 Qed.
 
 Lemma opnds_tail_loop : forall uni ws d isf xs,
@@ -408,33 +426,75 @@ Proof.
   - (* a group *)
     intros inv isf ty xs us HF Hc ws d R T fuel nx Hf.
     destruct Hc as (Hinv & Hty & Hus & Hxs). subst inv.
-    cbn [logop_isf logop_ty logop_xs] in *. unfold its_lbody in *.
-    rewrite items_toks_W in Hf |- *.
-    cbn [items_toks item_toks app length] in Hf |- *.
-    destruct fuel as [|[|k]]; [lia|lia|].
-    rewrite (parse_log_kw _ isf isf _ _ ty _ _ Hty). cbn [scan]. rewrite log_loop_comma.
-    destruct xs as [|x xs].
-    + cbn [map jn app] in Hf |- *. rewrite items_toks_W in Hf |- *.
+    cbn [logop_isf logop_ty logop_xs logop_om] in *. unfold log_body in *.
+    cbn [render_logop] in Hus.
+    destruct (kw_omitted isf ty (concat_str (bs ",") (map render_operand xs)) us) eqn:Hom.
+    + (* the keyword is not written: an AND group *)
+      assert (Eand : ty = LAnd).
+      { unfold kw_omitted in Hom. apply andb_true_iff in Hom. destruct Hom as [Ha _].
+        destruct ty; try discriminate Ha; reflexivity. }
+      subst ty. clear Hom.
+      unfold its_lbody in *. rewrite items_toks_W in Hf |- *. cbn [app] in Hf |- *.
+      destruct fuel as [|k]; [lia|].
+      destruct xs as [|x xs].
+      * cbn [map jn app] in Hf |- *. rewrite items_toks_W in Hf |- *.
+        cbn [items_toks item_toks app length] in Hf |- *.
+        rewrite parse_log_nokw by (destruct isf; reflexivity).
+        cbn [scan]. destruct k as [|k]; [lia|]. rewrite log_loop_close.
+        rewrite Hus, open_s_ch, close_s_ch. cbn [map concat_str app]. reflexivity.
+      * pose proof (Forall_inv HF) as Hx. pose proof (Forall_inv_tail HF) as HFxs. cbn [all_P] in Hxs.
+        destruct Hxs as [Hcx Hcxs].
+        cbn [map] in Hf |- *. rewrite jn_cons, <- app_assoc in Hf |- *.
+        change (map (fun x0 : operand => W ws nl ++ its_operand ws (S d) x0) xs)
+          with (map (opnd_items ws d) xs) in Hf |- *.
+        fold (opnds_tail ws d isf xs) in Hf |- *.
+        rewrite <- app_assoc in Hf |- *. rewrite items_toks_W in Hf |- *.
+        rewrite items_toks_app in Hf |- *. rewrite app_length in Hf.
+        destruct (opnds_tail_first uni ws d isf xs R) as ((t & T' & Et & Ht) & Hpk).
+        rewrite <- app_assoc.
+        pose proof (opnds_tail_loop uni ws d isf xs HFxs Hcxs R T) as HL.
+        rewrite Et in Hf, HL |- *. cbn [app length] in Hf, HL |- *.
+        destruct (operand_first uni isf x Hcx ws (S d) (items_cs (opnds_tail ws d isf xs) ++ R))
+          as (t1 & Tx & E1 & Hi).
+        assert (HX : (1 <= length (items_toks (its_operand ws (S d) x)
+                                     (items_cs (opnds_tail ws d isf xs) ++ R)))%nat)
+          by (rewrite E1; cbn [length]; lia).
+        rewrite parse_log_nokw by (rewrite E1; exact Hi).
+        destruct k as [|k]; [lia|].
+        rewrite (one_operand uni isf x Hx Hcx ws (S d) _ t (T' ++ T) k false LAnd []
+                   (ch_str (open_c isf)) Hpk Ht) by lia.
+        specialize (HL k false LAnd ([] ++ [x]) (ch_str (open_c isf) ++ render_operand x)).
+        cbn [scan] in HL. rewrite HL by lia.
+        rewrite Hus, open_s_ch, close_s_ch. cbn [map]. rewrite concat_str_cons, map_map, <- !app_assoc. reflexivity.
+    + (* the keyword is written *)
+      clear Hom.
+      unfold its_lbody in *. rewrite items_toks_W in Hf |- *.
       cbn [items_toks item_toks app length] in Hf |- *.
-      cbn [scan]. destruct k as [|k]; [lia|]. rewrite log_loop_close.
-      rewrite Hus, open_s_ch, close_s_ch. cbn [map concat_str]. rewrite <- !app_assoc. reflexivity.
-    + pose proof (Forall_inv HF) as Hx. pose proof (Forall_inv_tail HF) as HFxs. cbn [all_P] in Hxs. destruct Hxs as [Hcx Hcxs].
-      cbn [map] in Hf |- *. rewrite jn_cons, <- app_assoc in Hf |- *.
-      change (map (fun x0 : operand => W ws nl ++ its_operand ws (S d) x0) xs)
-        with (map (opnd_items ws d) xs) in Hf |- *.
-      fold (opnds_tail ws d isf xs) in Hf |- *.
-      rewrite <- app_assoc in Hf |- *. rewrite items_toks_W in Hf |- *.
-      rewrite items_toks_app in Hf |- *. rewrite app_length in Hf.
-      destruct (opnds_tail_first uni ws d isf xs R) as ((t & T' & Et & Ht) & Hpk).
-      rewrite <- app_assoc.
-      pose proof (opnds_tail_loop uni ws d isf xs HFxs Hcxs R T) as HL.
-      rewrite Et in Hf, HL |- *. cbn [app length] in Hf, HL |- *.
-      destruct k as [|k]; [lia|].
-      rewrite (one_operand uni isf x Hx Hcx ws (S d) _ t (T' ++ T) k false ty []
-                 ((ch_str (open_c isf) ++ kw_text ty) ++ ch_str 44) Hpk Ht) by lia.
-      specialize (HL k false ty ([] ++ [x]) (((ch_str (open_c isf) ++ kw_text ty) ++ ch_str 44) ++ render_operand x)).
-      cbn [scan] in HL. rewrite HL by lia.
-      rewrite Hus, open_s_ch, close_s_ch. cbn [map]. rewrite concat_str_cons, map_map, <- !app_assoc. reflexivity.
+      destruct fuel as [|[|k]]; [lia|lia|].
+      rewrite (parse_log_kw _ isf isf _ _ ty _ _ Hty). cbn [scan]. rewrite log_loop_comma.
+      destruct xs as [|x xs].
+      * cbn [map jn app] in Hf |- *. rewrite items_toks_W in Hf |- *.
+        cbn [items_toks item_toks app length] in Hf |- *.
+        cbn [scan]. destruct k as [|k]; [lia|]. rewrite log_loop_close.
+        rewrite Hus, open_s_ch, close_s_ch. cbn [map concat_str]. rewrite <- !app_assoc. reflexivity.
+      * pose proof (Forall_inv HF) as Hx. pose proof (Forall_inv_tail HF) as HFxs. cbn [all_P] in Hxs.
+        destruct Hxs as [Hcx Hcxs].
+        cbn [map] in Hf |- *. rewrite jn_cons, <- app_assoc in Hf |- *.
+        change (map (fun x0 : operand => W ws nl ++ its_operand ws (S d) x0) xs)
+          with (map (opnd_items ws d) xs) in Hf |- *.
+        fold (opnds_tail ws d isf xs) in Hf |- *.
+        rewrite <- app_assoc in Hf |- *. rewrite items_toks_W in Hf |- *.
+        rewrite items_toks_app in Hf |- *. rewrite app_length in Hf.
+        destruct (opnds_tail_first uni ws d isf xs R) as ((t & T' & Et & Ht) & Hpk).
+        rewrite <- app_assoc.
+        pose proof (opnds_tail_loop uni ws d isf xs HFxs Hcxs R T) as HL.
+        rewrite Et in Hf, HL |- *. cbn [app length] in Hf, HL |- *.
+        destruct k as [|k]; [lia|].
+        rewrite (one_operand uni isf x Hx Hcx ws (S d) _ t (T' ++ T) k false ty []
+                   ((ch_str (open_c isf) ++ kw_text ty) ++ ch_str 44) Hpk Ht) by lia.
+        specialize (HL k false ty ([] ++ [x]) (((ch_str (open_c isf) ++ kw_text ty) ++ ch_str 44) ++ render_operand x)).
+        cbn [scan] in HL. rewrite HL by lia.
+        rewrite Hus, open_s_ch, close_s_ch. cbn [map]. rewrite concat_str_cons, map_map, <- !app_assoc. reflexivity.
 Qed.
 
 (* ------------------------------------------------------------------ *)
@@ -473,9 +533,9 @@ Proof.
     destruct l as [inv isf ty xs us]. cbn [logop_isf logop_ty logop_xs] in *. subst isf.
     rewrite its_logop_eq, items_toks_W. cbn [items_toks item_toks app length open_c] in HD |- *.
     cbn [scan].
-    replace (3 * S (length (items_toks (its_lbody ws 0 false ty xs) [])) + 8)%nat
-      with (S (S (3 * length (items_toks (its_lbody ws 0 false ty xs) []) + 9))) by lia.
+    replace (3 * S (length (items_toks (its_lbody ws 0 false ty (logop_om (LogOp inv false ty xs us)) xs) [])) + 8)%nat
+      with (S (S (3 * length (items_toks (its_lbody ws 0 false ty (logop_om (LogOp inv false ty xs us)) xs) []) + 9))) by lia.
     rewrite top_loop_group.
-    rewrite <- (app_nil_r (items_toks (its_lbody ws 0 false ty xs) [])) at 2.
+    rewrite <- (app_nil_r (items_toks (its_lbody ws 0 false ty (logop_om (LogOp inv false ty xs us)) xs) [])) at 2.
     rewrite HD by lia. reflexivity.
 Qed.
